@@ -26,7 +26,7 @@ COMMANDS = {"quick": ["create", "create-n", "create-dr", "create-i", "create-fmt
                          "info", "create-dr-fmt2"],
             "three": ["create", "create-dr", "create-fmt2", "create-sf-top", "create-i", "create-dr-fmt2", "verify", "flatten"]}
 QUICK_FAMILIES = ["C02", "C03", "C04", "C08", "C12", "C17"]
-THREE_FAMILIES = ["C04", "C11", "C17", "C18"]
+THREE_FAMILIES = ["C04", "C17"]
 FAMILIES = ["C02", "C03", "C04", "C06", "C07", "C08", "C11", "C12", "C14", "C17", "C18"]
 
 
@@ -79,7 +79,7 @@ def tour(menu, family, K):
         L = Ledger(roots)
         # the nested history is sealed with md5 first: the parent run then brings formats that are new for its files
         F0 = ["xxh64", "c4"] if nested else ["md5"]
-        F2 = ["sha1"]
+        F2 = ["sha1"] if nested else ["xxh64"]
         log = []
 
         def ignored():
@@ -404,19 +404,19 @@ def _harness(name, menu, family, K):
                         "a reference ledger (first recorded digest per file and format, renames, patterns) is kept next to the program and the "
                         "%s assertions are evaluated after every command" % (K, family),
                    bounds={"steps": K, "mutations": MUTATIONS[menu], "commands": COMMANDS[menu], "tree": sorted(TREE) + ["R/z/"],
-                           "formats": "md5 (flat) | nested history md5, parent xxh64+c4; sha1 later"},
+                           "formats": "flat: md5, later xxh64 | nested history md5, parent xxh64+c4, later sha1"},
                    outside=["sequences longer than %d steps" % K, "directory renames / deletions", "renames across history boundaries"])
 
 
 def harnesses(tier, family):
-    """quick: two steps for the families whose assertions depend most on earlier steps; thorough: two steps with the larger
-    menus for every family, three steps with a reduced menu for the sequence-sensitive ones"""
+    """quick: two steps for the families whose assertions depend most on earlier steps; thorough: two steps for every family (the
+    larger menus for those six), three steps with a reduced menu for C04 and C17"""
     out = []
     if tier == "quick":
         if family in QUICK_FAMILIES:
             out.append(_harness("%s-tour" % family.lower(), "quick", family, 2))
     else:
-        out.append(_harness("%s-tour" % family.lower(), "thorough", family, 2))
+        out.append(_harness("%s-tour" % family.lower(), "thorough" if family in QUICK_FAMILIES else "quick", family, 2))
         if family in THREE_FAMILIES:
             out.append(_harness("%s-tour3" % family.lower(), "three", family, 3))
     return out
